@@ -18,6 +18,10 @@ Two parts:
   nested module path up in the ROOT module instead of descending.  `resolveSpec` is what
   the property demands (descend component by component).
 
+* `HOpt`, `HCfg`, `build`, `runBuilds` — the host's Go maps as heap objects with identity,
+  `cfg.globals` as a reference, any number of configurations built in one world
+  (`adopt = false`: risor_options.go as it is, `WithGlobals` copies; `adopt = true`: contrast).
+
 Object identities are natural numbers; `root = 0` stands for the script's global scope.
 Core Lean only.
 -/
@@ -448,5 +452,122 @@ def IsMap (g : Table) : Prop := ∀ k v, (k, v) ∈ g → tget g k = some v
     back-pointers); nothing that exists is written -/
 def addConfig (st : St) (newMods : List (Id × Table)) (newBack : List (Id × Id)) : St :=
   { st with mods := st.mods ++ newMods, back := st.back ++ newBack }
+
+/-! ## Host-owned inputs shared between configurations (risor_options.go: WithGlobals)
+
+The host's Go maps are OBJECTS WITH IDENTITY: the same map value may be handed to
+`risor.WithGlobals` in several option sequences (several Configs / evaluations, one after the
+other or at the same time).  `heap` holds them (`mtable heap h` = the entries of map `h`; an
+identity that is not in the heap is the nil map).  A Config's `globals` field is a REFERENCE:
+either the map `NewConfig` allocated (`gref = none`, contents in `c.globals`) or — only in the
+contrast variant `adopt = true` — the host's own map (`gref = some h`).  Every write to
+`cfg.globals` (the option functions, `applyDefaultGlobals`, `applyDenylist`, `applyOverrides`)
+goes through that reference. -/
+
+/-- an option as the host writes it; `globalsMap h` = `WithGlobals(m)` with `m` the host map of
+    identity `h` -/
+inductive HOpt where
+  | globalsMap (h : Id)
+  | opt (o : Opt)
+deriving DecidableEq, Repr
+
+/-- a Config under construction, next to the host's maps -/
+structure HCfg where
+  heap : List (Id × Table)
+  gref : Option Id
+  c : Cfg
+deriving Repr, DecidableEq
+
+/-- the map `cfg.globals` refers to -/
+def HCfg.globals (s : HCfg) : Table :=
+  match s.gref with
+  | none => s.c.globals
+  | some h => (mtable s.heap h).getD []
+
+/-- a write through `cfg.globals`: into the Config's own map, or into the host's -/
+def HCfg.setGlobals (s : HCfg) (t : Table) : HCfg :=
+  match s.gref with
+  | none => { s with c := { s.c with globals := t } }
+  | some h => { s with heap := modsUpdate s.heap h (fun _ => t) }
+
+/-- the option functions.  `adopt = false` is risor_options.go AS IT IS: `WithGlobals` ranges over
+    the host's map and stores every entry into the map the Config allocated.  `adopt = true` is
+    the contrast ("no-copy fast path"): when the Config has no globals yet and the map is not
+    nil, the host's map itself becomes `cfg.globals`. -/
+def applyHOpt (adopt : Bool) (s : HCfg) : HOpt → HCfg
+  | .globalsMap h =>
+    match mtable s.heap h with
+    | none => s
+    | some t =>
+      if adopt && s.globals.isEmpty then { s with gref := some h }
+      else s.setGlobals (putAll s.globals t)
+  | .opt o =>
+    match o with
+    | .withGlobal n v => s.setGlobals (tput s.globals n v)
+    | o => { s with c := applyOpt s.c o }
+
+/-- one request to build a configuration: the option sequence, the FRESH default objects
+    `DefaultGlobals()` hands to this Config (table, modules, back-pointers), and the iteration
+    orders of its denylist and overrides maps -/
+structure Build where
+  opts : List HOpt
+  dflt : Table
+  newMods : List (Id × Table)
+  newBack : List (Id × Id)
+  ds : List Name
+  os : Table
+deriving Repr, DecidableEq
+
+/-- everything configurations built in one process share: the host's maps, the heap of module
+    objects and the builtins' back-pointers -/
+structure World where
+  heap : List (Id × Table)
+  mods : List (Id × Table)
+  back : List (Id × Id)
+deriving Repr, DecidableEq
+
+/-- a built Config: where its globals live -/
+structure Built where
+  gref : Option Id
+  own : Table
+deriving Repr, DecidableEq
+
+/-- the globals a built Config holds when the host's maps are `heap` (`cfg.Globals()` then) -/
+def Built.visible (b : Built) (heap : List (Id × Table)) : Table :=
+  match b.gref with
+  | none => b.own
+  | some h => (mtable heap h).getD []
+
+/-- `NewConfig(opts...)`: fold the options, then `Config.init` on the map `cfg.globals` refers
+    to; what `init` leaves in the globals is written back THROUGH the reference -/
+def build (adopt : Bool) (w : World) (b : Build) : World × Built :=
+  let s := b.opts.foldl (applyHOpt adopt) ⟨w.heap, none, Cfg.empty⟩
+  let st := initFrom { s.c with globals := s.globals } b.dflt (w.mods ++ b.newMods)
+    (w.back ++ b.newBack) b.ds b.os
+  let s' := s.setGlobals st.globals
+  (⟨s'.heap, st.mods, st.back⟩, ⟨s'.gref, s'.c.globals⟩)
+
+/-- several configurations built one after the other in one world -/
+def runBuilds (adopt : Bool) : World → List Build → World × List Built
+  | w, [] => (w, [])
+  | w, b :: bs =>
+    let r := build adopt w b
+    let rs := runBuilds adopt r.1 bs
+    (rs.1, r.2 :: rs.2)
+
+/-- the option sequence with every `WithGlobals(m)` spelled out as one `WithGlobal` per entry the
+    host's map `m` had in `heap0` (a nil map: nothing) -/
+def flatten (heap0 : List (Id × Table)) : List HOpt → List Opt
+  | [] => []
+  | .globalsMap h :: r =>
+    ((mtable heap0 h).getD []).map (fun kv => Opt.withGlobal kv.1 kv.2) ++ flatten heap0 r
+  | .opt o :: r => o :: flatten heap0 r
+
+/-- **Spec**: the globals of a configuration are a function of ITS OWN option sequence and of the
+    contents the host's maps have as the host wrote them (`heap0`) — `applyOpts`/`initFrom` of
+    section "Option sequences" on the flattened sequence; no other configuration, no earlier
+    evaluation and no module heap enters -/
+def ownGlobals (heap0 : List (Id × Table)) (b : Build) : Table :=
+  (initFrom (applyOpts (flatten heap0 b.opts)) b.dflt [] [] b.ds b.os).globals
 
 end Risor.C11
